@@ -817,9 +817,80 @@ func c06UnparsableSigCases(yield func(c06Case), thorough bool) {
 	}
 }
 
+// c06TwinKeyAndSizeCases: (twin) one script verifies a signature against key P and then presents
+// the same signature with P's parity twin (02|X <-> 03|X: the point -P, a valid and different
+// key) - to CHECKSIG and to a 1-of-1 CHECKMULTISIG: the second check is false, whatever the first
+// one left behind; (size) the script code a FORKID signature commits to has a length on a boundary
+// of its length prefix: 252..254 and 65534..65536 bytes.
+func c06TwinKeyAndSizeCases(yield func(c06Case), thorough bool) {
+	for _, ki := range []int{0, 2} {
+		k := keyOf(ki)
+		twin := append([]byte(nil), k.comp...)
+		twin[0] ^= 1
+		pk, tw := minimalPush(k.comp), minimalPush(twin)
+		locks := []struct {
+			name string
+			lock []byte
+			ms   bool
+		}{
+			{"P CHECKSIGVERIFY twin CHECKSIG NOT", bytesJoin(pk, []byte{0xad}, tw, []byte{0xac, 0x91}), false},
+			{"P CHECKSIGVERIFY twin CHECKSIG", bytesJoin(pk, []byte{0xad}, tw, []byte{0xac}), false},
+			{"twin CHECKSIG NOT VERIFY P CHECKSIG", bytesJoin(tw, []byte{0xac, 0x91, 0x69}, pk, []byte{0xac}), false},
+			{"P CHECKSIGVERIFY 1 twin 1 CHECKMULTISIG NOT", bytesJoin(pk, []byte{0xad, 0x51}, tw, []byte{0x51, 0xae, 0x91}), true},
+			{"P CHECKSIGVERIFY 1 twin P 2 CHECKMULTISIG", bytesJoin(pk, []byte{0xad, 0x51}, tw, pk, []byte{0x52, 0xae}), true},
+		}
+		for _, l := range locks {
+			for _, ht := range []uint8{0x41, 0x01} {
+				for era := 0; era < 2; era++ {
+					for mask := 0; mask < 64; mask++ {
+						var f uint32
+						for i, b := range sigFlagBits {
+							if mask&(1<<i) != 0 {
+								f |= b
+							}
+						}
+						if era == 1 {
+							f |= fGenesis
+						}
+						base := scriptCase{Lock: l.lock, Flags: f}
+						rt, amount := base.ctx()
+						sig := cachedSign(k, ki, rt, 0, l.lock, amount, ht, ht&0x40 != 0 && f&fForkID != 0, "twin")
+						u := bytesJoin(minimalPush(sig), minimalPush(sig))
+						if l.ms {
+							u = append([]byte{0x00}, u...)
+						}
+						yield(c06Case{scriptCase: scriptCase{Unlock: u, Lock: l.lock, Flags: f}, Op: l.name, Sig: "valid-for-P", Key: "parity-twin", HT: ht})
+					}
+				}
+			}
+		}
+	}
+	k := keyOf(0)
+	for _, target := range []int{252, 253, 254, 65534, 65535, 65536} {
+		var lock []byte
+		for n := target; n > 0; n-- {
+			if l := bytesJoin(minimalPush(fill(n, 0x2a)), []byte{0x75}, minimalPush(k.comp), []byte{0xac}); len(l) == target {
+				lock = l
+				break
+			}
+		}
+		if lock == nil {
+			continue
+		}
+		for _, ht := range []uint8{0x41, 0xc3, 0x01} {
+			for _, f := range []uint32{fGenesis | fForkID | fStrict, fGenesis | fForkID, fGenesis, fForkID | fStrict, 0} {
+				base := scriptCase{Lock: lock, Flags: f}
+				rt, amount := base.ctx()
+				sig := cachedSign(k, 0, rt, 0, lock, amount, ht, ht&0x40 != 0 && f&fForkID != 0, fmt.Sprintf("size%d", target))
+				yield(c06Case{scriptCase: scriptCase{Unlock: minimalPush(sig), Lock: lock, Flags: f}, Op: "push DROP key CHECKSIG", Sig: "valid", Key: "compressed", HT: ht, Extra: fmt.Sprintf("|script-code-bytes=%d", target)})
+			}
+		}
+	}
+}
+
 func init() {
 	p := register(&Prop{ID: "C06", Level: "exploration",
-		Rule: "incl. elements that pass every signature-encoding rule and are no signatures (R=0, S=0, R=group order, both zero) x 6 key encodings x CHECKSIG / CHECKMULTISIG 1-of-1 / 1-of-2 (odd key first, second) x NOT x all 64 flag subsets x both eras; exhaustive product with real ECDSA signatures, every case executed in lockstep against the reference model (CHECKSIG/CHECKMULTISIG written after the node's interpreter, certified on the signature vectors of script_tests.json; digests certified on the sighash vectors): CHECKSIG family: 8 locking-script forms (CHECKSIG, NOT, CHECKSIGVERIFY, OP_CODESEPARATOR before the key / before the opcode / unexecuted / later in the script, P2PKH) x 5 key encodings (compressed, uncompressed, hybrid, truncated, empty) x 17 hash types (12 standard, 5 undefined) x 9 signature kinds (valid, over another tx, by another key, over the other digest algorithm, empty, hash-type byte only, high-S, DER-padded, wrong DER length) x ALL 64 subsets of {STRICTENC, DERSIG, LOW_S, NULLDUMMY, NULLFAIL, SIGHASH_FORKID} x both eras x tx shapes (1 in/1 out, no outputs; thorough: 2 inputs); signature-in-script (exact push and substring); valid signatures with a CHOSEN s (n/2-1, n/2, n/2+1, 2^255-1, 2^255; the public key is recovered from the signature) against the LOW_S rule; signature checks in scripts that continue after a top-level OP_RETURN with 0..4 raw bytes (script code with a data tail), and signature checks reached after an UNLOCKING script that ends through a top-level OP_RETURN; for CHECKSIG and P2PKH also with the transaction's checked input already recording ANOTHER spent output (other value and script, as left by FromUTXOs or an earlier Execute): a valid signature, and one made for the recorded value instead of the spent one. CHECKMULTISIG family: every m-of-n with 0<=m<=n<=3, every m-tuple over the slot alphabet {valid by key j for every j, empty, type-only, other tx, high-S, a single byte that occurs inside a public key} (hence every order), dummy {empty, 01}, key mutations, 3 opcode forms, uniform and mixed per-signature hash types, 2/5 hash types, 64 flag subsets x both eras; key and signature counts of every m-of-n with n<=2 in ten number forms (plus 2^31, 2^32, 2^63, 2^64, 2^128, minus 2^64, negative, padded) x 3 opcode forms x 4 flag sets x both eras; two-input transactions (checked input first / last) and locking scripts with non-minimal pushes in the script code (PUSHDATA1/2/4 of 3 and 80 bytes, before and after the check, the key itself through PUSHDATA1; CHECKSIG, P2PKH and 1-of-1 CHECKMULTISIG; OP_CODESEPARATOR before / inside / after a CHECKMULTISIG, in taken and untaken branches, and as push data) x all 17 hash types x 4 flag sets x both eras, with a valid signature (also on a transaction OBJECT that went through signature hashing before being edited in place into the transaction of the case) and signatures made for a transaction differing in the other input's / the checked input's sequence number. Oracle: verdict and every stack snapshot equal the reference. distinct_nontrivial = distinct (script pair, flags) executions",
+		Rule: "incl. scripts that verify one signature against a key and then against its parity twin (CHECKSIG and CHECKMULTISIG, all 64 flag subsets, both eras), FORKID script codes of 252..254 and 65534..65536 bytes, elements that pass every signature-encoding rule and are no signatures (R=0, S=0, R=group order, both zero) x 6 key encodings x CHECKSIG / CHECKMULTISIG 1-of-1 / 1-of-2 (odd key first, second) x NOT x all 64 flag subsets x both eras; exhaustive product with real ECDSA signatures, every case executed in lockstep against the reference model (CHECKSIG/CHECKMULTISIG written after the node's interpreter, certified on the signature vectors of script_tests.json; digests certified on the sighash vectors): CHECKSIG family: 8 locking-script forms (CHECKSIG, NOT, CHECKSIGVERIFY, OP_CODESEPARATOR before the key / before the opcode / unexecuted / later in the script, P2PKH) x 5 key encodings (compressed, uncompressed, hybrid, truncated, empty) x 17 hash types (12 standard, 5 undefined) x 9 signature kinds (valid, over another tx, by another key, over the other digest algorithm, empty, hash-type byte only, high-S, DER-padded, wrong DER length) x ALL 64 subsets of {STRICTENC, DERSIG, LOW_S, NULLDUMMY, NULLFAIL, SIGHASH_FORKID} x both eras x tx shapes (1 in/1 out, no outputs; thorough: 2 inputs); signature-in-script (exact push and substring); valid signatures with a CHOSEN s (n/2-1, n/2, n/2+1, 2^255-1, 2^255; the public key is recovered from the signature) against the LOW_S rule; signature checks in scripts that continue after a top-level OP_RETURN with 0..4 raw bytes (script code with a data tail), and signature checks reached after an UNLOCKING script that ends through a top-level OP_RETURN; for CHECKSIG and P2PKH also with the transaction's checked input already recording ANOTHER spent output (other value and script, as left by FromUTXOs or an earlier Execute): a valid signature, and one made for the recorded value instead of the spent one. CHECKMULTISIG family: every m-of-n with 0<=m<=n<=3, every m-tuple over the slot alphabet {valid by key j for every j, empty, type-only, other tx, high-S, a single byte that occurs inside a public key} (hence every order), dummy {empty, 01}, key mutations, 3 opcode forms, uniform and mixed per-signature hash types, 2/5 hash types, 64 flag subsets x both eras; key and signature counts of every m-of-n with n<=2 in ten number forms (plus 2^31, 2^32, 2^63, 2^64, 2^128, minus 2^64, negative, padded) x 3 opcode forms x 4 flag sets x both eras; two-input transactions (checked input first / last) and locking scripts with non-minimal pushes in the script code (PUSHDATA1/2/4 of 3 and 80 bytes, before and after the check, the key itself through PUSHDATA1; CHECKSIG, P2PKH and 1-of-1 CHECKMULTISIG; OP_CODESEPARATOR before / inside / after a CHECKMULTISIG, in taken and untaken branches, and as push data) x all 17 hash types x 4 flag sets x both eras, with a valid signature (also on a transaction OBJECT that went through signature hashing before being edited in place into the transaction of the case) and signatures made for a transaction differing in the other input's / the checked input's sequence number. Oracle: verdict and every stack snapshot equal the reference. distinct_nontrivial = distinct (script pair, flags) executions",
 	})
 	sp := NewSpace(p, "sigops", c06Check)
 	p.Run = func(r *rep.Run, thorough bool) {
@@ -847,12 +918,14 @@ func init() {
 		s := &Space[c06Case]{P: p, Name: sp.Name, Check: chk}
 		if os.Getenv("VERIF_C06_ONLY") == "nonsig" { // development aid: one family alone (never set by check.sh)
 			s.Each(r, func(yield func(c06Case)) { c06UnparsableSigCases(yield, thorough) })
+			s.Each(r, func(yield func(c06Case)) { c06TwinKeyAndSizeCases(yield, thorough) })
 			return
 		}
 		s.Each(r, func(yield func(c06Case)) { c06ChecksigCases(yield, thorough) })
 		s.Each(r, func(yield func(c06Case)) { c06ReturnTailCases(yield, thorough) })
 		s.Each(r, func(yield func(c06Case)) { c06ChosenSCases(yield, thorough) })
 		s.Each(r, func(yield func(c06Case)) { c06UnparsableSigCases(yield, thorough) })
+		s.Each(r, func(yield func(c06Case)) { c06TwinKeyAndSizeCases(yield, thorough) })
 		n1 := r.Evals()
 		s.Each(r, func(yield func(c06Case)) { c06MultisigCases(yield, thorough) })
 		s.Each(r, func(yield func(c06Case)) { c06CountCases(yield, thorough) })
